@@ -248,5 +248,45 @@ pub fn run(s: &mut Session, ctx: &Ctx) {
             || format!("{:?} vs {:?}; hues {:?} vs {:?}", r1, r2, c1.to_hsla().h, c2.to_hsla().h),
         );
     }
+    // ---- LCh hue at the 0/360 seam: colours whose Lab b is within a few rounding steps of zero
+    // (a > 0), found by bisecting the HSL hue; atan2 of a tiny negative b must still map below 360 ----
+    let n_seam = if ctx.thorough { 6000 } else { 250 };
+    for _ in 0..n_seam {
+        let sat = rng.range(0.05, 1.0);
+        let li = if rng.below(3) == 0 { rng.range(0.01, 0.12) } else { rng.range(0.03, 0.97) };
+        let lab = |h: f64| Color::from_hsl(h, sat, li).to_lab();
+        let mut bracket = None;
+        for k in 0..120 {
+            let h0 = 290.0 + k as f64;
+            let (p, q) = (lab(h0), lab(h0 + 1.0));
+            if p.b < 0.0 && q.b >= 0.0 && p.a > 0.0 {
+                bracket = Some((h0, h0 + 1.0));
+                break;
+            }
+        }
+        let (mut lo, mut hi) = match bracket {
+            Some(b) => b,
+            None => continue,
+        };
+        for _ in 0..70 {
+            let mid = 0.5 * (lo + hi);
+            if mid <= lo || mid >= hi {
+                break;
+            }
+            if lab(mid).b < 0.0 {
+                lo = mid;
+            } else {
+                hi = mid;
+            }
+        }
+        let mut h = f64::from_bits(lo.to_bits() - 40);
+        for _ in 0..90 {
+            let c = Color::from_hsl(h, sat, li);
+            s.count_case("", true);
+            let input = format!("Color::from_hsl({:?}, {:?}, {:?}) (Lab b = {:?})", h, sat, li, c.to_lab().b);
+            check_valid(s, "Color::to_lch (hue seam)", &input, &c);
+            h = f64::from_bits(h.to_bits() + 1);
+        }
+    }
     let _ = f(0.0);
 }
